@@ -11,7 +11,9 @@
    are covered by the semantic differential only. *)
 From Gv Require Import lib.Bytes lib.Json lib.Gql lib.Exec C03.Model C03.Spec
      C03.ProofsExec C03.ProofsRel C03.ProofsDoc C03.ProofsPasses C03.ProofsDedup C03.ProofsMono
-     C03.ProofsCompose C03.Examples C03.ProofsRefute C03.ProofsDirs.
+     C03.ProofsCompose C03.Examples C03.ProofsRefute C03.ProofsDirs
+     C03.ProofsInlineExecCong C03.ProofsInlineExecRel C03.ProofsInlineExec C03.ProofsInlineExecDoc C03.ExamplesInline
+     C03.ProofsInlineIdem C03.ProofsMergeIdem C03.ProofsComposeInline.
 From Coq Require Import List Permutation.
 
 (* ---- the executor: fuel only decides whether an execution finishes ---- *)
@@ -212,3 +214,181 @@ Theorem c03_example_hypotheses :
   ops_spread_free (frag_inline S0 (include_skip (obj_members (JObj [])) d0)) = true.
 Proof. exact ex_hypotheses. Qed.
 Print Assumptions c03_example_hypotheses.
+
+(* ---- inline_selections_from_inline_fragments ----
+   The pass decides with the static type of a selection set (couldInline), the executor with the
+   runtime type.  Executable hypotheses (each shown to be needed below):
+     static_schema_ok S : "_Entity" is not declared; every name in an object's implements list passes
+                          the executor's type test for that object; a field of a type T has, in every type
+                          T applies to, a type that is the same or an object type the field's type applies to;
+     types_known S d    : root types of the operations and types of the fragment definitions are declared;
+     keys_agree d       : fields with the same response key name the same field (the executor runs all
+                          of them with the first one's definition).
+   The equation is between whole responses, for any two fuels at which both executions finish
+   (inlining lengthens selection lists, and [flatten] spends fuel along a list). *)
+Theorem c03_inline_fragments_pre_repair_preserves_exec :
+  forall (S : schema) (U : universe) (d : document) (opn : option name) (v : json),
+    static_schema_ok S = true -> types_known S d = true -> keys_agree d = true ->
+    forall fuel fuel' : nat,
+      oof_b (rs_errs (execute fuel S U Mono d opn v)) = false ->
+      oof_b (rs_errs (execute fuel' S U Mono (inline_sel_pre_repair S d) opn v)) = false ->
+      execute fuel' S U Mono (inline_sel_pre_repair S d) opn v = execute fuel S U Mono d opn v.
+Proof. exact inline_sel_pre_repair_preserves_exec. Qed.
+Print Assumptions c03_inline_fragments_pre_repair_preserves_exec.
+
+(* the repaired pass also drops an inlinable fragment that holds only the "__internal_typename"
+   placeholder -- a response key disappears; the theorem covers it whenever that repair does not fire *)
+Theorem c03_inline_fragments_preserves_exec_partial :
+  forall (S : schema) (U : universe) (d : document) (opn : option name) (v : json),
+    static_schema_ok S = true -> types_known S d = true -> keys_agree d = true ->
+    inline_sel S d = inline_sel_pre_repair S d ->
+    forall fuel fuel' : nat,
+      oof_b (rs_errs (execute fuel S U Mono d opn v)) = false ->
+      oof_b (rs_errs (execute fuel' S U Mono (inline_sel S d) opn v)) = false ->
+      execute fuel' S U Mono (inline_sel S d) opn v = execute fuel S U Mono d opn v.
+Proof. exact inline_sel_preserves_exec_partial. Qed.
+Print Assumptions c03_inline_fragments_preserves_exec_partial.
+
+(* non-vacuity: { a { ... on A { id } ... on I { name } ... { id } }  i { ... on I { id } ... on A { name } } }
+   (a: A, A implements I, i: I) satisfies the hypotheses and has redexes of the three kinds *)
+Example c03_inline_fragments_hypotheses :
+  static_schema_ok S1 = true /\ types_known S1 d_inl = true /\ keys_agree d_inl = true /\
+  inline_sel S1 d_inl = inline_sel_pre_repair S1 d_inl.
+Proof. exact ex_inline_hypotheses. Qed.
+Example c03_inline_fragments_nontrivial :
+  inline_sel S1 d_inl =
+  qdoc [ fld n_a [ fld n_id []; fld n_name []; fld n_id [] ];
+         fld n_i [ fld n_id []; SInline (Some n_A) [] [fld n_name []] ] ] /\
+  execute 30 S1 U1 Mono d_inl None (JObj []) =
+  {| rs_data := JObj [(n_a, JObj [(n_id, JStr [49]); (n_name, JStr [110])]);
+                      (n_i, JObj [(n_id, JStr [49]); (n_name, JStr [110])])]; rs_errs := [] |} /\
+  execute 30 S1 U1 Mono (inline_sel S1 d_inl) None (JObj []) = execute 30 S1 U1 Mono d_inl None (JObj []).
+Proof. exact ex_inline_nontrivial. Qed.
+
+(* without the placeholder hypothesis the equation fails ({ a { id ... { __internal_typename: __typename } } }),
+   the responses stay equivalent *)
+Theorem c03_inline_fragments_preserves_exec_refuted :
+  static_schema_ok S1 = true /\ types_known S1 d_ph = true /\ keys_agree d_ph = true /\
+  inline_sel S1 d_ph <> inline_sel_pre_repair S1 d_ph /\
+  oof_b (rs_errs (execute 30 S1 U1 Mono d_ph None (JObj []))) = false /\
+  oof_b (rs_errs (execute 30 S1 U1 Mono (inline_sel S1 d_ph) None (JObj []))) = false /\
+  execute 30 S1 U1 Mono (inline_sel S1 d_ph) None (JObj []) <> execute 30 S1 U1 Mono d_ph None (JObj []) /\
+  resp_equiv (execute 30 S1 U1 Mono d_ph None (JObj [])) (execute 30 S1 U1 Mono (inline_sel S1 d_ph) None (JObj [])) = true.
+Proof. exact inline_sel_preserves_exec_refuted. Qed.
+Print Assumptions c03_inline_fragments_preserves_exec_refuted.
+
+(* keys_agree is needed: { x: a { ... on A { name } }  x: b { ... on B { q } } } *)
+Theorem c03_inline_fragments_keys_agree_needed :
+  static_schema_ok S1 = true /\ types_known S1 d_keys = true /\ keys_agree d_keys = false /\
+  inline_sel S1 d_keys = inline_sel_pre_repair S1 d_keys /\
+  oof_b (rs_errs (execute 30 S1 U1 Mono d_keys None (JObj []))) = false /\
+  oof_b (rs_errs (execute 30 S1 U1 Mono (inline_sel S1 d_keys) None (JObj []))) = false /\
+  execute 30 S1 U1 Mono (inline_sel S1 d_keys) None (JObj []) <> execute 30 S1 U1 Mono d_keys None (JObj []).
+Proof. exact inline_keys_agree_needed. Qed.
+Print Assumptions c03_inline_fragments_keys_agree_needed.
+
+(* types_known is needed: { ... on Query { __typename } } over a schema that does not declare Query *)
+Theorem c03_inline_fragments_types_known_needed :
+  static_schema_ok S_noroot = true /\ types_known S_noroot d_root = false /\ keys_agree d_root = true /\
+  inline_sel S_noroot d_root = inline_sel_pre_repair S_noroot d_root /\
+  oof_b (rs_errs (execute 30 S_noroot U1 Mono d_root None (JObj []))) = false /\
+  oof_b (rs_errs (execute 30 S_noroot U1 Mono (inline_sel S_noroot d_root) None (JObj []))) = false /\
+  execute 30 S_noroot U1 Mono (inline_sel S_noroot d_root) None (JObj []) <> execute 30 S_noroot U1 Mono d_root None (JObj []).
+Proof. exact inline_types_known_needed. Qed.
+Print Assumptions c03_inline_fragments_types_known_needed.
+
+(* static_schema_ok is needed: interface I { r: A }, type C implements I { r: B }, { i { r { ... on A { name } } } } *)
+Theorem c03_inline_fragments_schema_ok_needed :
+  static_schema_ok S_cov = false /\ types_known S_cov d_cov = true /\ keys_agree d_cov = true /\
+  inline_sel S_cov d_cov = inline_sel_pre_repair S_cov d_cov /\
+  oof_b (rs_errs (execute 30 S_cov U_cov Mono d_cov None (JObj []))) = false /\
+  oof_b (rs_errs (execute 30 S_cov U_cov Mono (inline_sel S_cov d_cov) None (JObj []))) = false /\
+  execute 30 S_cov U_cov Mono (inline_sel S_cov d_cov) None (JObj []) <> execute 30 S_cov U_cov Mono d_cov None (JObj []).
+Proof. exact inline_schema_ok_needed. Qed.
+Print Assumptions c03_inline_fragments_schema_ok_needed.
+
+(* idempotence: refuted by the nesting quirk of couldInline (finding inlining-depends-on-fragment-nesting:
+   { a { ... on I { ... { id } } } } needs two runs), proved when the output holds no inlinable fragment *)
+Theorem c03_inline_fragments_idempotent_partial :
+  forall (S : schema) (d : document),
+    inline_settled S (inline_sel S d) = true -> inline_sel S (inline_sel S d) = inline_sel S d.
+Proof. exact inline_sel_idempotent_partial. Qed.
+Print Assumptions c03_inline_fragments_idempotent_partial.
+
+Theorem c03_inline_fragments_idempotent_refuted :
+  exists (S : schema) (d : document), inline_sel S (inline_sel S d) <> inline_sel S d.
+Proof. exact inline_sel_idempotent_refuted. Qed.
+Print Assumptions c03_inline_fragments_idempotent_refuted.
+
+Example c03_inline_fragments_idempotent_nontrivial :
+  inline_settled S1 (inline_sel S1 d_inl) = true /\ inline_sel S1 d_inl <> d_inl.
+Proof. exact inline_sel_idempotent_nontrivial. Qed.
+
+(* ---- inline_fragment_selection_merging ----
+   The equation between whole responses is refuted: an absorbed selection moves forward, so response
+   keys change places ({ i { ... on A { name } id ... on A { x: id } } } answers name, id, x before and
+   name, x, id after the pass); the responses are equal up to member order. *)
+Theorem c03_merge_selections_preserves_exec_refuted :
+  merge_sel d_mreorder = qdoc [ fld n_i [ SInline (Some n_A) [] [fld n_name []; SField (Some n_x) n_id [] [] []]; fld n_id [] ] ] /\
+  execute 30 S1 U1 Mono d_mreorder None (JObj []) =
+    {| rs_data := JObj [(n_i, JObj [(n_name, JStr [110]); (n_id, JStr [49]); (n_x, JStr [49])])]; rs_errs := [] |} /\
+  execute 30 S1 U1 Mono (merge_sel d_mreorder) None (JObj []) =
+    {| rs_data := JObj [(n_i, JObj [(n_name, JStr [110]); (n_x, JStr [49]); (n_id, JStr [49])])]; rs_errs := [] |} /\
+  resp_equiv (execute 30 S1 U1 Mono d_mreorder None (JObj [])) (execute 30 S1 U1 Mono (merge_sel d_mreorder) None (JObj [])) = true.
+Proof. exact merge_sel_preserves_exec_refuted. Qed.
+Print Assumptions c03_merge_selections_preserves_exec_refuted.
+
+(* the same on fields of an operation that passes validation:
+   query($t: Boolean!) { a { id }  a @include(if: $t) { name }  a { x: id } } with {"t": true} *)
+Theorem c03_merge_selections_fields_reorder :
+  execute 30 S1 U1 Mono d_freorder None v_t =
+    {| rs_data := JObj [(n_a, JObj [(n_id, JStr [49]); (n_name, JStr [110]); (n_x, JStr [49])])]; rs_errs := [] |} /\
+  execute 30 S1 U1 Mono (merge_sel d_freorder) None v_t =
+    {| rs_data := JObj [(n_a, JObj [(n_id, JStr [49]); (n_x, JStr [49]); (n_name, JStr [110])])]; rs_errs := [] |} /\
+  resp_equiv (execute 30 S1 U1 Mono d_freorder None v_t) (execute 30 S1 U1 Mono (merge_sel d_freorder) None v_t) = true.
+Proof. exact merge_sel_fields_reorder. Qed.
+Print Assumptions c03_merge_selections_fields_reorder.
+
+Theorem c03_merge_selections_idempotent_partial :
+  forall d : document, merge_settled dirs_eqb (merge_sel d) = true -> merge_sel (merge_sel d) = merge_sel d.
+Proof. exact merge_sel_idempotent_partial. Qed.
+Print Assumptions c03_merge_selections_idempotent_partial.
+
+Example c03_merge_selections_idempotent_nontrivial :
+  merge_settled dirs_eqb (merge_sel d_mreorder) = true /\ merge_sel d_mreorder <> d_mreorder.
+Proof. exact merge_sel_idempotent_nontrivial. Qed.
+
+(* ---- the composition extended with inline_selections_from_inline_fragments at its engine position ----
+   norm_pre_inline S jv d    = self_alias (frag_inline S (include_skip jv d))
+   norm_upto_inline S jv d   = inline_sel S (norm_pre_inline S jv d)
+   norm_proved_inline S jv d = dedup (remove_frag_defs (norm_upto_inline S jv d)) *)
+Theorem c03_norm_preserves_exec_inline_partial :
+  forall (S : schema) (U : universe) (d : document) (opn : option name) (v : json),
+    (forall o, pick_op d opn = Some o ->
+               include_skip_ok (obj_members v) (effective_vars o (obj_members v)) d = true) ->
+    static_schema_ok S = true ->
+    types_known S (norm_pre_inline S (obj_members v) d) = true ->
+    keys_agree (norm_pre_inline S (obj_members v) d) = true ->
+    inline_sel S (norm_pre_inline S (obj_members v) d) = inline_sel_pre_repair S (norm_pre_inline S (obj_members v) d) ->
+    ops_spread_free (norm_upto_inline S (obj_members v) d) = true ->
+    forall fuel fuel1 fuel' : nat,
+      oof_b (rs_errs (execute fuel S U Mono d opn v)) = false ->
+      oof_b (rs_errs (execute fuel1 S U Mono (norm_upto_inline S (obj_members v) d) opn v)) = false ->
+      oof_b (rs_errs (execute fuel' S U Mono (norm_proved_inline S (obj_members v) d) opn v)) = false ->
+      execute fuel' S U Mono (norm_proved_inline S (obj_members v) d) opn v = execute fuel S U Mono d opn v.
+Proof. exact norm_preserves_exec_inline_partial. Qed.
+Print Assumptions c03_norm_preserves_exec_inline_partial.
+
+Example c03_norm_inline_hypotheses :
+  (forall o, pick_op d_full (Some n_Q) = Some o ->
+             include_skip_ok (obj_members (JObj [])) (effective_vars o (obj_members (JObj []))) d_full = true) /\
+  static_schema_ok S1 = true /\
+  types_known S1 (norm_pre_inline S1 [] d_full) = true /\
+  keys_agree (norm_pre_inline S1 [] d_full) = true /\
+  inline_sel S1 (norm_pre_inline S1 [] d_full) = inline_sel_pre_repair S1 (norm_pre_inline S1 [] d_full) /\
+  ops_spread_free (norm_upto_inline S1 [] d_full) = true /\
+  inline_sel S1 (norm_pre_inline S1 [] d_full) <> norm_pre_inline S1 [] d_full /\
+  oof_b (rs_errs (execute 30 S1 U1 Mono d_full (Some n_Q) (JObj []))) = false /\
+  oof_b (rs_errs (execute 30 S1 U1 Mono (norm_upto_inline S1 [] d_full) (Some n_Q) (JObj []))) = false /\
+  oof_b (rs_errs (execute 30 S1 U1 Mono (norm_proved_inline S1 [] d_full) (Some n_Q) (JObj []))) = false.
+Proof. exact ex_full_hypotheses. Qed.
